@@ -74,11 +74,11 @@ func applyMuts(b []byte, ms []mut) []byte {
 // item is one scripted action of the upstream on one connection (or one datagram in the UDP check).
 type item struct {
 	Kind    string
-	Fam     int   // 4: answers the A query, 6: answers the AAAA query
-	Msg     wmsg  // template; ID, QName, QType are filled in when it is sent
+	Fam     int  // 4: answers the A query, 6: answers the AAAA query
+	Msg     wmsg // template; ID, QName, QType are filled in when it is sent
 	Seed    uint64
-	N       int   // garbage/short length, midclose byte count
-	RK      int   // response kind (rk* constant) of an acceptable response; evidence label only
+	N       int // garbage/short length, midclose byte count
+	RK      int // response kind (rk* constant) of an acceptable response; evidence label only
 	WrongID uint16
 	DelayMs int64
 	Raw     []byte // kRaw
